@@ -117,6 +117,17 @@ def registry_state():
 PINT = [False]
 
 
+def process_state():
+    """Interpreter-wide settings a program can see: recursion limit, switch interval, working directory, module search
+    path, environment, warning filters, threads, the standard streams and their hooks."""
+    import os as _os
+    import threading as _th
+    import warnings as _w
+    return (sys.getrecursionlimit(), sys.getswitchinterval(), _os.getcwd(), tuple(sys.path), hash(frozenset(_os.environ.items())),
+            len(_w.filters), _th.active_count(), id(sys.stdin), id(sys.stderr), id(sys.excepthook), id(sys.displayhook),
+            sys.gettrace() is None, sys.getprofile() is None, id(_th.excepthook), sys.flags.dev_mode, _os.umask(_os.umask(0o22) or 0) if False else 0)
+
+
 def library_state():
     """Module-level state of the library itself: for every global of every hszinc module its identity, and for the
     containers among them (tables, memos, registries) their size and key set."""
@@ -142,7 +153,7 @@ def state_snapshot(gf):
     mods = set(sys.modules.keys())
     b = dict((k, id(v)) for k, v in builtins.__dict__.items())
     g = dict((k, id(v)) for k, v in gf.__dict__.items() if not k.startswith('_gen_hsfilter_') and k != '_id_function')
-    return mods, b, g, (registry_state() if PINT[0] else ()), library_state()
+    return mods, b, g, (registry_state() if PINT[0] else ()), library_state(), process_state()
 
 
 def check_source(src):
@@ -267,6 +278,7 @@ def shards(tier, seed):
     for i in range(n):
         out.append({'part': 'payloads', 'slice': [i, n]})
     out.append({'part': 'xstr'})
+    out.append({'part': 'deep'})
     # the same monitors with pint quantities switched on (hszinc.use_pint()): unit text then reaches a shared registry
     out.append({'part': 'pint', 'slice': [0, 2]})
     out.append({'part': 'pint', 'slice': [1, 2]})
@@ -350,6 +362,17 @@ def evaluate(ctx, mon, hszinc, gf, pp, g, text, pos, payload, grid_snap):
     if after[2] != before[2]:
         diff = sorted(set(k for k, _ in (set(after[2].items()) ^ set(before[2].items()))))
         viol('state:filter-module-globals-changed', 'filter module globals changed: %r' % (diff[:5],))
+    if after[5] != before[5]:
+        names = ('recursion limit', 'switch interval', 'working directory', 'sys.path', 'environment', 'warning filters', 'threads', 'stdin',
+                 'stderr', 'excepthook', 'displayhook', 'trace function', 'profile function', 'threading.excepthook', 'dev mode', '-')
+        ch = [(nm, a, b) for nm, a, b in zip(names, before[5], after[5]) if a != b]
+        viol('state:interpreter-setting-changed', 'interpreter-wide settings changed: %r' % (ch[:3],))
+        # put back what can be put back, so that one filter does not taint the verdicts of the following ones
+        try:
+            sys.setrecursionlimit(before[5][0])
+            sys.setswitchinterval(before[5][1])
+        except Exception:   # noqa
+            pass
     if after[4] != before[4]:
         diff = sorted(k for k in set(after[4]) | set(before[4]) if after[4].get(k) != before[4].get(k))
         diff = [k for k in diff if not k.startswith('hszinc.grid_filter._gen_hsfilter_')]
@@ -376,7 +399,10 @@ def evaluate(ctx, mon, hszinc, gf, pp, g, text, pos, payload, grid_snap):
         except Exception as e2:   # noqa
             pintish = PINT[0] and (type(e2).__module__.split('.')[0] in ('pint', 'tokenize') or any(
                 c.__name__ == 'PintError' for c in type(e2).__mro__))
-            if isinstance(e2, pp.ParseException):
+            if isinstance(e2, RecursionError) and pos == 'deep-nesting':
+                # the recursive-descent parser runs out of stack at about 60 levels: a resource limit, whatever the text
+                ctx.count('deeply nested filter given up with RecursionError (resource limit, not judged)')
+            elif isinstance(e2, pp.ParseException):
                 viol('non-filter-not-parse-error:' + outcome.split(':')[1], 'not a filter, yet %s was raised instead of ParseException' % outcome)
             elif pintish:
                 # pint mode: the unit text of a quantity literal is handed to pint, which refuses what it does not know
@@ -422,6 +448,23 @@ def run_shard(spec, ctx):
     if not any(e[0] == 'compile' for e in mon.events) or not any(e[0] == 'open' for e in mon.events):
         ctx.inconc('audit hook self-test saw no compile/open event')
     evaluate.snap0 = grid_snap(g)
+    if spec['part'] == 'deep':
+        # deeply nested filters, well-formed and malformed at the innermost position or after it (the parser may give up
+        # on them, with a parse error or RecursionError; what it may not do is leave the interpreter changed)
+        k = 0
+        for depth in (5, 30, 61, 62, 80, 120, 250, 600):
+            for inner in ('a', 'a == 5', 'a ==', '__import__("os")', 'a == "\\q"', 'not', 'a and', ')', '(', 'a == exec("VF_CANARY=1")', ''):
+                for tail in ('', ')', ' x', ' and'):
+                    text = '(' * depth + inner + ')' * depth + tail
+                    evaluate(ctx, mon, hszinc, gf, pp, g, text, 'deep-nesting', None, grid_snap)
+                    k += 1
+                    text = '(' * depth + inner + ')' * (depth - 1)
+                    evaluate(ctx, mon, hszinc, gf, pp, g, text, 'deep-nesting', None, grid_snap)
+                    text = 'not ' * depth + inner
+                    evaluate(ctx, mon, hszinc, gf, pp, g, text, 'deep-nesting', None, grid_snap)
+        ctx.count('deeply nested filters', k * 3)
+        ctx.sample({'deep_filter': '(' * 61 + 'a ==' + ')' * 61})
+        return
     if spec['part'] == 'pint':
         i, n = spec['slice']
         k = 0
